@@ -49,7 +49,7 @@ ASSUMPTIONS = [
 ]
 
 MENU_Q = ["5", "-", ".", "e", "1e", "2", "#", "é", "\x00", ",", "z", "L", "a", "h", "1.", "--1", "1e999", "0", "-0", "T", "s"]
-MENU_T = MENU_Q + [" ", "M", "+", "Z1", "1e5", "T", "S", "v", "Q", " ", "0x1", "1e999", "nan", "inf"]
+MENU_T = MENU_Q + [" ", "M", "+", "Z1", "1e5", "S", "v", "Q", " ", "0x1", "nan", "inf", "t"]
 
 
 def tokenize(s):
